@@ -2,6 +2,9 @@
 package main
 
 import (
+	"os"
+	"strconv"
+
 	"github.com/imroc/req/v3/verifharness/c06peer"
 	"github.com/imroc/req/v3/verifharness/hk"
 )
@@ -12,6 +15,15 @@ func main() {
 		r.CaseType = "c06_case"
 		r.CheckFn = "c06_check"
 		r.Rule = "trace has a client DATA/HEADERS frame after a peer SETTINGS/WINDOW_UPDATE/RST_STREAM"
+		// C06PEER_ONLY=<special scenario kind> C06PEER_REPS=<n>: measure one scenario
+		if kind := os.Getenv("C06PEER_ONLY"); kind != "" {
+			reps, _ := strconv.Atoi(os.Getenv("C06PEER_REPS"))
+			if reps <= 0 {
+				reps = 100
+			}
+			c06peer.RunSelected(r, hk.NewRand(r.Seed*7919+13), kind, reps)
+			return
+		}
 		c06peer.Run(r, hk.NewRand(r.Seed))
 	}, nil)
 }
